@@ -25,7 +25,7 @@ RULE = (
     "(link index, vertex index).  Cases run with neighbor caching off or on (then the 9 settings are queried back to back in a generated order).  For every vertex x 3 directions x 3 unknown-handling modes the result (as an "
     "index list, order and multiplicity significant) must equal the reference decision table, "
     "NotImplementedError exactly when the reference raises; the whole table is evaluated a second time on a copy (deepcopy / pickle / nrpickler) of the already-queried graph; plus the FORWARD/BACKWARD multiplicity duality for "
-    "no filter and edge-only filters.  Calls with the optional arguments omitted are compared with the documented defaults spelled out; one filter family is RE-ENTRANT (it asks for the candidate neighbour's own neighbours before deciding); every list received is scribbled on by the harness after reading.  A few worlds are scaled up: one vertex gets 65 / 70 further links to fresh leaves (mixed classes and orientations, optionally a directed / undirected self-loop among them).  Vertices that are universes may CONTAIN other linked vertices of the graph (their links are not the universe's).  Non-trivial = some vertex has >= 2 links of >= 2 kinds, or a self-loop, or "
+    "no filter and edge-only filters.  In the first and every 25th case of a process a star of UNNAMED vertices (referenced by nobody but the graph) is queried after a garbage collection.  Calls with the optional arguments omitted are compared with the documented defaults spelled out; one filter family is RE-ENTRANT (it asks for the candidate neighbour's own neighbours before deciding); every list received is scribbled on by the harness after reading.  A few worlds are scaled up: one vertex gets 65 / 70 further links to fresh leaves (mixed classes and orientations, optionally a directed / undirected self-loop among them).  Vertices that are universes may CONTAIN other linked vertices of the graph (their links are not the universe's).  Non-trivial = some vertex has >= 2 links of >= 2 kinds, or a self-loop, or "
     "parallel links, or the filter rejects some and accepts some of that vertex's links; distinct = distinct case value."
 )
 ASSUMPTIONS = [
